@@ -26,7 +26,7 @@ var c15Literals = []string{"text/css", "text/x", "a/b", "A/B", "text/css+x", "ap
 	"text/html ", " text/css", "text/x;q=1", "a/b "}
 var c15Patterns = []string{`^text/`, `css$`, `.*`, `[/+]json$`, `^text/css$`, `^(application|text)/(x-)?javascript$`, `(?i)^TEXT/`, `/x`, `^a/b$`, `\+xml$`, `^module$`, `x`}
 var c15Bases = append(append([]string{}, c15Literals[:10]...), "text/plain", "text/y", "application/x+json", "a/bc", "TEXT/CSS", "module", "application/xhtml+xml", "b/a")
-var c15Params = []string{"charset=utf-8", "q=0.8", "version=2", "inline=1", "x", "charset=UTF-8", "Q=1"}
+var c15Params = []string{"charset=utf-8", "q=0.8", "version=2", "inline=1", "x", "charset=UTF-8", "Q=1", `charset="utf-8"`, `Title="Ab"`}
 
 // the reference model, written from the doc comments of Add*, Match and Minify
 type c15Model struct {
